@@ -23,6 +23,8 @@ func init() {
 			{ID: "C13.R1", Min: 1, Doc: "per-item accounting by path enumeration of one iteration of the item loop (from the loop body entry back to the header)", Run: c13r1},
 			{ID: "C13.R2", Min: 1, Doc: "scalar switches agree: type sets of the comma-ok assertions on data[1] (value) and data[0] (timestamp) are equal", Run: c13r2},
 			{ID: "C13.R3", Min: 2, Doc: "unchecked assertions are dominated by the ok edge of a checked assertion of the same type on the same slot; the dispatched line is built as metric + \" \" + value + \" \" + timestamp", Run: c13r3},
+			{ID: "C13.R6", Min: 3, Doc: "invalid structure is skipped, not indexed: every constant index into an unpickled tuple in the per-item functions is controlled by a length test of the same tuple that excludes every too-short length", Run: c13r6},
+			{ID: "C13.R7", Min: 1, Doc: "handlers are re-entrant: one Handler serves all connections of a listener concurrently, so Handle (and the methods it calls on its receiver) never writes a field of the receiver or hands out the address of one (rule C12.R3 evaluated for this property as well)", Run: c12r3},
 			{ID: "C13.R5", Min: 1, Doc: "one decoder per frame: the receiver of every Decoder.Decode call in the pickle input is the result of ogorek.NewDecoder constructed inside every loop that contains the Decode call (directly, or handed to a helper from such a place) — a decoder kept across frames carries its memo along, and protocol 4 resolves memo references by position", Run: c13r5},
 			{ID: "C13.R4", Min: 3, Doc: "framing primitives: binary.Read(r, BigEndian, *uint32) (or io.ReadFull) for the length; payload loop exit test lengthRead == lengthTotal; checkProtocol truth table over the peeked prefix bytes (reject-direction only)", Run: c13r4},
 		},
@@ -730,5 +732,41 @@ func c13r5(c *Check) {
 	}
 	if n == 0 {
 		anchorFail("no call of ogorek's Decoder.Decode found in the pickle input")
+	}
+}
+
+// c13r6: a structurally invalid item is skipped, not indexed: every constant index into a slice
+// inside the functions that handle one unpickled item is controlled by a test of that slice's
+// length which excludes every length that is too short (the K9 obligations of the crash-site
+// engine, evaluated for the item functions of the pickle reader).
+func c13r6(c *Check) {
+	_, fns := pickleItemFuncs(c)
+	set := map[*ssa.Function]*CGEdge{}
+	for _, f := range fns {
+		set[f] = nil
+	}
+	n := 0
+	for _, s := range enumerateCrashSites(c.P, set) {
+		if s.Class != "K9" {
+			continue
+		}
+		ia, ok := s.In.(*ssa.IndexAddr)
+		if !ok {
+			continue
+		}
+		k, ok := constInt(ia.Index)
+		if !ok {
+			continue
+		}
+		// only slices decoded from the network (interface elements)
+		if !strings.Contains(s.Val.Type().String(), "interface") {
+			continue
+		}
+		n++
+		guarded := lenGuardedN(s.Fn, s.In, s.Val, k+1, 0)
+		c.Judge(guarded, "input pickle item "+s.What+" in "+FuncName(s.Fn), c.At(s.In), "controlled by a test of the tuple's length", "an element of an unpickled tuple is accessed without a test that the tuple is long enough (the length test looks at another slice, or was removed): a structurally invalid item is not counted invalid and skipped — it panics the connection's goroutine or is dispatched from its first elements")
+	}
+	if n < 3 {
+		anchorFail("fewer than three indexed accesses to unpickled tuples found (%d)", n)
 	}
 }
